@@ -29,7 +29,8 @@ TraceSpec == TraceInit /\ [][TNew \/ TIncrease \/ TReset \/ TApply]_tvars
 TNewObs      == IsEvent("New") /\ ObserveNew
 TIncreaseObs == IsEvent("IncreaseLoad") /\ IncreaseLoadObs(Ev.in.p, Ev.in.s, Ev.out.ok)
 TResetObs    == IsEvent("Reset") /\ Reset
-TraceSpecObs == TraceInit /\ [][TNewObs \/ TIncreaseObs \/ TResetObs \/ TApply]_tvars
+TWindowObs   == IsEvent("Window") /\ WindowObs(Ev.in.p, Ev.out.n, Ev.out.bytes, Ev.out.first)
+TraceSpecObs == TraceInit /\ [][TNewObs \/ TIncreaseObs \/ TResetObs \/ TApply \/ TWindowObs]_tvars
 
 HighWater == TLCSet(1, IF l > TLCGet(1) THEN l ELSE TLCGet(1))
 Accepted  == IF TLCGet(1) = Len(TLog) + 1 THEN TRUE ELSE PrintT("@@HW " \o ToString(TLCGet(1))) /\ FALSE
